@@ -37,6 +37,7 @@ var (
 	verbose    = flag.Bool("v", false, "verbose")
 	oneShot    = flag.Bool("oneshot", false, "solve every query from a clean solver state with constraint slicing instead of push/pop")
 	noGuide    = flag.Bool("noguide", false, "disable model-guided branching (always query both sides)")
+	nSamples   = flag.Int("samples", 6, "complete paths per harness exported with predicted observations (for native validation)")
 	progress   = flag.Bool("progress", false, "print progress every 10s")
 	noLambda   = flag.Bool("nolambda", false, "avoid array lambdas where a bounded unrolling exists")
 	mapOrder   = flag.String("maporder", "insertion", "map iteration order: insertion|reverse")
@@ -71,7 +72,7 @@ type HarnessResult struct {
 	Rescues     int               `json:"second_solver_rescues"`
 	Fns         map[string]int    `json:"functions"`
 	Models      map[string]int    `json:"models"`
-	Samples     [][]sym.InputValue `json:"samples"`
+	Samples     []sym.Sample      `json:"samples"`
 	Exhaustive  bool              `json:"exhaustive"`
 	Inconclusive []string         `json:"inconclusive"`
 }
@@ -98,7 +99,7 @@ func main() {
 		writeOut(res)
 		return
 	}
-	cfg := sym.Config{FastTimeoutMs: 1500, Unwind: 64, MaxDecisions: 4000, MaxSteps: 20_000_000, TimeoutMs: 10000, Workers: *workers,
+	cfg := sym.Config{NSamples: *nSamples, FastTimeoutMs: 1500, Unwind: 64, MaxDecisions: 4000, MaxSteps: 20_000_000, TimeoutMs: 10000, Workers: *workers,
 		Solver: *solver, NoLambda: *noLambda, MapOrder: *mapOrder, Progress: *verbose || *progress, OneShot: *oneShot, NoModelGuide: *noGuide}
 	if *tier == "thorough" {
 		cfg.Unwind, cfg.TimeoutMs, cfg.MaxDecisions = 256, 60000, 20000
